@@ -64,3 +64,10 @@ CLAIMED["C19"] = (
     _TRUST + " Front-ends are driven in-process with fed StreamReaders whose limits are read from the code; no sockets/TLS.",
     "DESIGN.md section 4 C19",
 )
+CLAIMED["C17"] = (
+    "exploration",
+    "property-based testing: Hypothesis-generated namespace histories (model-based) with a batch of generated LIST/LSUB/LIST-EXTENDED queries after every step; oracle = reference namespace model + independent */% matcher, subtree snapshots across RENAME, directory-tree and mailboxes-table snapshots across refused commands",
+    "Generated CREATE/DELETE/RENAME/SUBSCRIBE histories with restarts over names with spaces, regex metacharacters and string-prefix relations; LIST/LSUB results (names, \\HasChildren, \\Noselect, \\Subscribed, CHILDINFO) are compared with a model updated only by OK-tagged commands; RENAME must carry every (uid, message, flags) and UIDVALIDITY; a refused command must leave disk and database untouched.",
+    _TRUST + " Names are sent as quoted strings; the model follows asimap's documented create/delete conventions.",
+    "DESIGN.md section 4 C17",
+)
